@@ -154,7 +154,7 @@ def Codec.exact : Codec where
 
 theorem Codec.exact_valid : Codec.exact.Valid where
   fmt_dur := fun d _ => ⟨roundHalfEven d.natAbs 10000, rfl, (roundHalfEven_near _).1, (roundHalfEven_near _).2⟩
-  parse_dur := fun neg q _ => ⟨q * 10000, exactParseDur_decText neg q, Nat.le_refl _, Nat.le_succ _⟩
+  parse_dur := fun neg q _ _ => ⟨q * 10000, exactParseDur_decText neg q, Nat.le_succ _, Nat.le_succ _⟩
   time_rt := fun t hw => by
     simp only [wfTime, Bool.and_eq_true, decide_eq_true_eq] at hw
     obtain ⟨⟨⟨⟨⟨h1, h2⟩, h3⟩, h4⟩, h5⟩, h6⟩ := hw
